@@ -107,6 +107,23 @@ func newUniverseNamed(repos, tags []string) *universe {
 	return u
 }
 
+// withDualRole adds one digest held both as a blob and as a manifest: the bytes of mi pushed as a blob too
+// (Blobs[3]), an image that carries them as a layer (Manifests[12]), and an index that lists that image
+// before mi itself (Manifests[13]). Used by C02 only: every sweep grows with the universe.
+func (u *universe) withDualRole() *universe {
+	mi := u.Manifests[1]
+	b1 := descOf(mtOctet, u.Blobs[1])
+	u.Blobs = append(u.Blobs, mi.Data)
+	im := ocispec.Manifest{MediaType: mtImage, Config: b1, Layers: []ociregistry.Descriptor{descOf(mtOctet, mi.Data)}}
+	im.SchemaVersion = 2
+	ma := uniManifest{"ma", mtImage, mustJSON(im)}
+	ix := ocispec.Index{MediaType: mtIndex, Manifests: []ociregistry.Descriptor{descOf(mtImage, ma.Data), descOf(mtImage, mi.Data)}}
+	ix.SchemaVersion = 2
+	mxd := uniManifest{"mxd", mtIndex, mustJSON(ix)}
+	u.Manifests = append(u.Manifests, ma, mxd)
+	return u
+}
+
 // Op is one transition of a registry history. JSON-serialisable for replay.
 type Op struct {
 	K     string `json:"k"`
